@@ -251,3 +251,21 @@ Definition view_flat (o : option view) : list Z :=
 Definition placement (f : fmt) (k : Z) : list Z :=
   flat_map (fun sl => view_flat (slice_view (2 * k) (fst sl)) ++ view_flat (slice_view (2 * k) (snd sl)))
            (slices_for f k).
+
+(* well-formed pyramids: every tile is k x k and of one maskable mode [bm];
+   jpg files decode to k x k RGB images *)
+Definition good_img (k : Z) (bm : mode) (im : img) : Prop :=
+  ih im = k /\ iw im = k /\ maskable (imode im) = bm.
+
+Definition good_file (k : Z) (bm : mode) (d : fdata) : Prop :=
+  match d with
+  | FExact im => good_img k bm im
+  | FLossy h w => h = k /\ w = k /\ bm = RGBA
+  end.
+
+Definition good_store (dflt : fmt) (k : Z) (bm : mode) (st : store) : Prop :=
+  forall p d, st p dflt = Some d -> good_file k bm d.
+
+(* the pio's format can store merged tiles of mode bm *)
+Definition storable (dflt : fmt) (bm : mode) : Prop :=
+  holds dflt bm = true \/ (dflt = Jpg /\ bm = RGBA).
